@@ -40,7 +40,8 @@ def run(ck, F, tier):
     sites = a.tracer.sites
     # ---- Y1b ------------------------------------------------------------------------
     asserts = [s for s in sites if s["kind"] == "assert" and (atom_fn(single_atom(s["vals"][0]) or ()) if isinstance(s["vals"][0], Poly) else None) == "lt"]
-    inserts = [s for s in sites if s["kind"] == "contract" and s["detail"].endswith("::insert") and s["fn"] == FN]
+    # (inserts may sit in a private helper that copies one column: helpers are inlined by the audit tracer)
+    inserts = [s for s in sites if s["kind"] == "contract" and s["detail"].endswith("::insert")]
     for i, s in enumerate(asserts):
         kv = atom_args(single_atom(s["vals"][0]))[0]
         ctx = (repr(s["loops"]), repr(s["guards"]))
@@ -57,7 +58,7 @@ def run(ck, F, tier):
                 "no column is about to be written" % (kv, [l[:2] for l in s["loops"]], [(repr(g)[:60], p) for g, p in s["guards"]][-2:]))
     ck.floor("Y1b", "assert!(k < m-n) sites", len(asserts), 2)
     # ---- Y2 ---------------------------------------------------------------------------
-    news = [s for s in sites if s["kind"] == "contract" and s["detail"].endswith("::new") and s["fn"] == FN]
+    news = [s for s in sites if s["kind"] == "contract" and s["detail"] == SM + "new"]
     ck.inst("Y2", "result-dims", len(news) == 1 and news[0]["vals"] == [Rr, Cc], news[0]["sp"] if news else F.body(FN).span,
             "result allocated as new(num_rows(h), num_cols(h))")
     ck.floor("Y2", "insert sites", len(inserts), 3)
@@ -107,18 +108,21 @@ def run(ck, F, tier):
     e2 = seen.get("NotFullRank")
     ok2 = False
     if e2 is not None and len(e2.guards) == 2 and e2.guards[0] == (app("lt", Cc, Rr), False):
-        g, pol = e2.guards[1]
-        r = repr(g)
-        ga = single_atom(g)
-        full = False
-        if ga and atom_fn(ga) == "not":
-            inner = single_atom(atom_args(ga)[0])
-            if inner and atom_fn(inner) == "std::iter::Iterator::any":
-                d = inner[2]
-                while isinstance(d, tuple) and d and d[0] in ("iterdesc", "rev"):
-                    d = d[1]
-                full = isinstance(d, tuple) and d[0] == "range" and d[1] == ("P", num(0)) and d[2] == ("P", Cc) and d[3] is False
-        ok2 = pol and full
+        from ..trace import quantifier
+        q = quantifier(F, *e2.guards[1], tracer=a.tracer)
+        full = zero_pred = False
+        if q is not None and q[0] == "forall":
+            d = q[1]
+            while isinstance(d, tuple) and d and d[0] in ("iterdesc", "rev"):
+                d = d[1]
+            full = isinstance(d, tuple) and d[0] == "range" and d[1] == ("P", num(0)) and d[2] == ("P", Cc) and d[3] is False
+            # the predicate: entry [last echelon row, q] is zero
+            pa = single_atom(q[2]) if isinstance(q[2], Poly) else None
+            if pa and atom_fn(pa) in ("op_eq", "eq") and q[3] is True:
+                sides = atom_args(pa)
+                zero_pred = any("Zero::zero" in repr(x) for x in sides) and any(
+                    "index(" in repr(x) and repr(var("q")) in repr(x) and repr(Rr - num(1)).replace(" ", "") in repr(x).replace(" ", "") for x in sides)
+        ok2 = full and zero_pred
     ck.inst("Y3", "NotFullRank", ok2, e2.site if e2 else F.body(FN).span,
             "returned exactly when no column j of the whole range 0..m has a non-zero entry in the last echelon row (the scan must cover every column)")
     from ..linalg_rules import row_operation_width
